@@ -241,6 +241,17 @@ def owesMon (iterStart pays : A → Bool) : Mon := fun s e =>
 
 def everyIterationPays (iterStart pays : A → Bool) (sk : Sk) : Bool := (scan (owesMon iterStart pays) 4 sk [0]).isSome
 
+/-- "after a `trigger` a `response` comes before the next `boundary`": state 1 = a response is owed -/
+def respondsMon (trigger response boundary : Ev → Bool) : Mon := fun s e =>
+  if response e then some 0 else if trigger e then some 1 else if boundary e && s == 1 then none else some s
+
+def alwaysResponds (trigger response boundary : Ev → Bool) (sk : Sk) : Bool :=
+  (scan (respondsMon trigger response boundary) 4 sk [0]).isSome
+
+def isBranch (taken : Bool) (test : String) : Ev → Bool
+  | .act a => a.kind == (if taken then Kind.brT else Kind.brF) && a.name == test
+  | .aw _ => false
+
 /-! ### "this piece of code never suspends" -/
 
 /-- number of suspension points in a skeleton -/
@@ -264,6 +275,12 @@ def actions (k : Kind) : Sk → List String
   | .fin a b => actions k a ++ actions k b
   | .tryExc a b => actions k a ++ actions k b
   | _ => []
+
+/-- does a name denote an attribute (or item) of the object itself, i.e. state that outlives the call? -/
+def isSelfState (s : String) : Bool := s.toList.take 5 == ['s', 'e', 'l', 'f', '.']
+
+/-- the attributes of `self` a coroutine assigns -/
+def selfStateWritten (sk : Sk) : List String := (actions .set sk).filter isSelfState
 
 /-! ### the event loop as an adversary -/
 
